@@ -55,6 +55,37 @@ pub fn mk_json(nsrc: usize, nnames: usize, mappings: &str, rmi: Option<&str>) ->
     }
     v.to_string()
 }
+pub fn mk_json_odd(nsrc: usize, nnames: usize, mappings: &str, rmi: Option<&str>) -> String {
+    use serde_json::{json, Value};
+    let srcs: Vec<Value> = (0..nsrc).map(|i| if i % 3 == 1 { Value::Null } else { json!(format!("s{i}")) }).collect();
+    let nms: Vec<Value> = (0..nnames)
+        .map(|i| match i % 5 {
+            0 => json!(format!("n{i}")),
+            1 => Value::Null,
+            2 => json!(i),
+            3 => json!(true),
+            _ => json!({"k": [1]}),
+        })
+        .collect();
+    let mut v = json!({"version": 3, "sources": srcs, "names": nms, "mappings": mappings});
+    if let Some(r) = rmi {
+        v["rangeMappings"] = Value::String(r.to_string());
+    }
+    v.to_string()
+}
+/// a token of a successfully decoded map whose source or name index does not resolve
+pub fn dangling(sm: &SourceMap) -> Option<String> {
+    for t in sm.tokens() {
+        let r = t.get_raw_token();
+        if r.src_id != !0 && sm.get_source(r.src_id).is_none() {
+            return Some(format!("err dangling-source-index {}", r.src_id));
+        }
+        if r.name_id != !0 && sm.get_name(r.name_id).is_none() {
+            return Some(format!("err dangling-name-index {}", r.name_id));
+        }
+    }
+    None
+}
 /// serialise and pull `mappings` / `rangeMappings` out of the JSON text
 pub fn enc_fields(sm: &SourceMap) -> Result<(String, Option<String>), String> {
     let mut out = vec![];
@@ -76,10 +107,31 @@ pub fn run(t: &[&str]) -> String {
             let (Some(m), Some(r)) = (hex_str(t[3]), hex_str(t[4])) else { return "skip".into() };
             let rmi = if t[4] == "none" { None } else { Some(r.as_str()) };
             let js = mk_json(nsrc, nn, &m, rmi);
-            match SourceMap::from_slice(js.as_bytes()) {
-                Ok(sm) => format!("ok {}", show_toks_canon(&sm)),
+            let first = match SourceMap::from_slice(js.as_bytes()) {
+                Ok(sm) => {
+                    if let Some(bad) = dangling(&sm) {
+                        return bad;
+                    }
+                    format!("ok {}", show_toks_canon(&sm))
+                }
                 Err(e) => format!("err {}", err_kind(&e)),
+            };
+            // the same mappings under tables of the same lengths whose entries are not all strings (null sources;
+            // null / boolean / numeric / object names, which real maps contain): the outcome and the tokens depend on
+            // the table lengths only, and every accepted index still resolves (C06, last sentence)
+            let second = match SourceMap::from_slice(mk_json_odd(nsrc, nn, &m, rmi).as_bytes()) {
+                Ok(sm) => {
+                    if let Some(bad) = dangling(&sm) {
+                        return bad;
+                    }
+                    format!("ok {}", show_toks_canon(&sm))
+                }
+                Err(e) => format!("err {}", err_kind(&e)),
+            };
+            if first != second {
+                return "err odd-tables-differ".into();
             }
+            first
         }
         "map.enc" | "map.rt" => {
             let nsrc: usize = t[1].parse().unwrap();
@@ -114,6 +166,9 @@ pub fn run(t: &[&str]) -> String {
                 match sm.lookup_token(l, c) {
                     None => out.push("-".to_string()),
                     Some(tok) => {
+                        if !token_accessors_agree(&tok) {
+                            return "err accessors-differ".into();
+                        }
                         // Token::idx observed through the public API: after `seek` the iterator
                         // continues behind the found token
                         let raw = tok.get_raw_token();
